@@ -14,6 +14,62 @@ def validation_dominates(rep):
                       'sqlparse.format', ok, {}, undecided_if_false=True)
 
 
+def closer_sites_agree(rep):
+    """Cooperating sites: _group_matching guarantees that a block group ends with a token matching ITS class's M_CLOSE
+    (proved there).  Code that looks the closer up again with a literal pattern - the CASE layout routines, which then
+    insert relative to the token found, and Case.get_cases - must accept every closer M_CLOSE admits, otherwise the
+    lookup yields None and insert_before(None, ...) raises ValueError.  Decided on the real Token.match: for every value v
+    of sql.Case.M_CLOSE, Token(Keyword, v) matches the pattern used at the site."""
+    from pyvc.core import import_repo
+    import_repo()
+    from sqlparse import sql, tokens as T
+    import sqlparse.filters.aligned_indent as ai
+    import sqlparse.filters.reindent as ri
+    src = source()
+    mclose = sql.Case.M_CLOSE
+    vals = (mclose[1],) if isinstance(mclose[1], str) else tuple(mclose[1])
+    sites = 0
+    for q, mod in (('sqlparse.filters.aligned_indent.AlignedIndentFilter._process_case', ai),
+                   ('sqlparse.filters.reindent.ReindentFilter._process_case', ri),
+                   ('sqlparse.sql.Case.get_cases', sql)):
+        n = src.get(q)
+        if n is None:
+            common.structural(rep, 'C07/%s/exists' % q, q, False, {}, undecided_if_false=True)
+            continue
+        env = dict(vars(mod))
+        env.setdefault('sql', sql)
+        env.setdefault('T', T)
+        for c in ast.walk(n):
+            if not isinstance(c, ast.Call) or not isinstance(c.func, ast.Attribute):
+                continue
+            pat = None
+            if c.func.attr == 'token_next_by':
+                kw = [k.value for k in c.keywords if k.arg == 'm']
+                pat_node = kw[0] if kw else None
+            elif c.func.attr == 'match':
+                pat_node = ast.Tuple(elts=list(c.args), ctx=ast.Load()) if len(c.args) >= 2 else (
+                    c.args[0].value if len(c.args) == 1 and isinstance(c.args[0], ast.Starred) else None)
+            else:
+                continue
+            if pat_node is None:
+                continue
+            try:
+                pat = eval(compile(ast.Expression(ast.fix_missing_locations(pat_node)), '<site>', 'eval'), env, {'self': sql.Case, 'tlist': sql.Case})
+            except Exception:       # noqa  (depends on local values: not a closer lookup with a constant pattern)
+                continue
+            if not (isinstance(pat, tuple) and len(pat) >= 2 and pat[0] is mclose[0]):
+                continue
+            pvals = (pat[1],) if isinstance(pat[1], str) else tuple(pat[1] or ())
+            if not any(str(v).upper().startswith('END') for v in pvals):
+                continue
+            sites += 1
+            missed = [v for v in vals if not sql.Token(mclose[0], v).match(*pat)]
+            common.structural(rep, 'C07/%s:%d/the closer lookup accepts every closer that Case.M_CLOSE admits' % (q, c.lineno),
+                              q, not missed, {'pattern': repr(pat), 'M_CLOSE': repr(mclose), 'not accepted': missed})
+    common.structural(rep, 'C07/CASE closer lookups/sites inspected', 'sqlparse.sql.Case', sites >= 3, {'sites': sites},
+                      undecided_if_false=True)
+
+
 def _dyn_candidates(txt):
     """python values for a Dyn term printed by z3 (DNone, DBool(True), DInt(5), DStr("x"), DFloat(k, t, e), DOther(n))"""
     import re
@@ -87,7 +143,7 @@ def run(rep):
     from contracts.sql import ACCESSOR_TOTAL
     funcs = funcs + list(ACCESSOR_TOTAL) + [('sqlparse.sql.IdentifierList.get_identifiers', 'body')]
     return generic.run_generic(
-        rep, funcs, structural=[replay_options, validation_dominates, rec],
+        rep, funcs, structural=[replay_options, validation_dominates, closer_sites_agree, rec],
         assumptions=['option values range over None | bool | int | float (finite, inf, nan) | str | other object; objects '
                      'with custom __eq__/__int__/__bool__ are outside the modelled domain',
                      'raises-clauses are proved for the functions listed under contract (incl. the read-only accessors '
